@@ -81,6 +81,25 @@ func (e *Env) noteWrite(name, ref string) {
 	if e.writeLog != nil {
 		e.writeLog[name] = append(e.writeLog[name], ref)
 	}
+	// writes inside a loop body whose heap array was havocked only partially must hit one
+	// of the references the havoc covered (otherwise: obligation auto-writes)
+	for _, ph := range e.partials {
+		refs, ok := ph.refs[name]
+		if !ok || ph.fr.curBlock == nil || !ph.li.body[ph.fr.curBlock] {
+			continue
+		}
+		hit := false
+		var alts []string
+		for _, r := range refs {
+			if r == ref {
+				hit = true
+			}
+			alts = append(alts, mkEq(ref, r))
+		}
+		if !hit {
+			ph.viol = append(ph.viol, mkOr(alts...))
+		}
+	}
 }
 
 func fieldPathString(root types.Type, path []int) string {
@@ -104,9 +123,52 @@ func typeAtPath(root types.Type, path []int) types.Type {
 
 func (p *Ptr) pointee() types.Type { return typeAtPath(p.Root, p.Path) }
 
+// packed returns the SMT datatype used for slice elements of a multi-leaf type: the
+// elements of such slices live in ONE heap array of tuples (constructor mk, one selector
+// per leaf) instead of one array per leaf, so copying facts are stated once.
+func (e *Env) packed(et types.Type) (sort, ctor string, sels []string, ok bool) {
+	ls := e.leavesOf(et)
+	if len(ls) < 2 {
+		return "", "", nil, false
+	}
+	key := typeKey(et)
+	sort = q("S!" + key)
+	ctor = q("mk!" + key)
+	var fields []string
+	for i, l := range ls {
+		sel := q(fmt.Sprintf("sel!%s!%d", key, i))
+		sels = append(sels, sel)
+		fields = append(fields, "("+sel+" "+l.Sort+")")
+	}
+	if !e.declared["dt:"+key] {
+		e.declared["dt:"+key] = true
+		e.sess.Cmd("(declare-datatypes ((" + sort + " 0)) (((" + ctor + " " + strings.Join(fields, " ") + "))))")
+	}
+	return sort, ctor, sels, true
+}
+
+// leafOffset returns the index of the first leaf of the location at path inside root.
+func (e *Env) leafOffset(root types.Type, path []int) int {
+	off := 0
+	t := root
+	for _, i := range path {
+		st := t.Underlying().(*types.Struct)
+		for k := 0; k < i; k++ {
+			off += len(e.leavesOf(st.Field(k).Type()))
+		}
+		t = st.Field(i).Type()
+	}
+	return off
+}
+
 // locName returns heap array name and sort for leaf l of the location p points to.
 func (e *Env) locName(p *Ptr, l Leaf) (string, string) {
 	prefix := fieldPathString(p.Root, p.Path)
+	if p.Kind == "elem" {
+		if srt, _, _, ok := e.packed(p.Root); ok {
+			return "E!" + typeKey(p.Root) + "!", heapSort("E", srt, "")
+		}
+	}
 	switch p.Kind {
 	case "obj":
 		n := "F!" + typeKey(p.Root) + "!" + prefix + l.Path
@@ -183,16 +245,35 @@ func (e *Env) load(st *State, p *Ptr) Value {
 	pt := p.pointee()
 	ls := e.leavesOf(pt)
 	ts := make([]string, len(ls))
-	for i, l := range ls {
-		name, srt := e.locName(p, l)
-		arr := e.heapGet(st, name, srt)
-		if p.Kind == "obj" {
-			ts[i] = mkSelect(arr, p.Ref)
-		} else {
-			ts[i] = mkSelect(mkSelect(arr, p.Ref), p.Idx)
+	var packedElem string
+	var psels []string
+	poff := 0
+	if p.Kind == "elem" {
+		if psort, _, sels, ok := e.packed(p.Root); ok {
+			name, srt := e.locName(p, Leaf{})
+			arr := e.heapGet(st, name, srt)
+			packedElem = e.maybeName(mkSelect(mkSelect(arr, p.Ref), p.Idx), psort)
+			psels = sels
+			poff = e.leafOffset(p.Root, p.Path)
+			if e.quantDepth == 0 {
+				e.entryClosedPacked(name, p.Root)
+			}
 		}
-		if e.quantDepth == 0 {
-			e.entryClosed(name, srt, l)
+	}
+	for i, l := range ls {
+		if packedElem != "" {
+			ts[i] = sx(psels[poff+i], packedElem)
+		} else {
+			name, srt := e.locName(p, l)
+			arr := e.heapGet(st, name, srt)
+			if p.Kind == "obj" {
+				ts[i] = mkSelect(arr, p.Ref)
+			} else {
+				ts[i] = mkSelect(mkSelect(arr, p.Ref), p.Idx)
+			}
+			if e.quantDepth == 0 {
+				e.entryClosed(name, srt, l)
+			}
 		}
 		if l.Sort == sInt {
 			if isRefType(l.Typ) || l.Path == "#arr" || strings.HasSuffix(l.Path, "#arr") {
@@ -228,6 +309,27 @@ func (e *Env) store(st *State, p *Ptr, v Value) {
 	ts := e.flatten(v)
 	if len(ts) != len(ls) {
 		unsupp("store shape mismatch %v: %d vs %d", pt, len(ts), len(ls))
+	}
+	if p.Kind == "elem" {
+		if _, ctor, sels, ok := e.packed(p.Root); ok {
+			name, srt := e.locName(p, Leaf{})
+			arr := e.heapGet(st, name, srt)
+			off := e.leafOffset(p.Root, p.Path)
+			all := make([]string, len(sels))
+			if len(ts) == len(sels) {
+				copy(all, ts)
+			} else {
+				cur := mkSelect(mkSelect(arr, p.Ref), p.Idx)
+				for k := range sels {
+					all[k] = sx(sels[k], cur)
+				}
+				copy(all[off:], ts)
+			}
+			na := mkStore(arr, p.Ref, mkStore(mkSelect(arr, p.Ref), p.Idx, sx(ctor, all...)))
+			e.heapSet(st, name, srt, e.maybeName(na, srt))
+			e.noteWrite(name, p.Ref)
+			return
+		}
 	}
 	for i, l := range ls {
 		name, srt := e.locName(p, l)
@@ -277,12 +379,38 @@ func constArray(sort, val string) string {
 
 // initBacking sets all elements of backing array r (element type et) to zero.
 func (e *Env) initBacking(st *State, r string, et types.Type) {
-	for _, l := range e.leavesOf(et) {
-		name := "E!" + typeKey(et) + "!" + l.Path
-		srt := heapSort("E", l.Sort, "")
-		arr := e.heapGet(st, name, srt)
-		e.heapSet(st, name, srt, e.maybeName(mkStore(arr, r, constArray("(Array Int "+l.Sort+")", e.zeroLeaf(l))), srt))
+	names, sorts, leaves := e.elemArrays(et)
+	for i, name := range names {
+		arr := e.heapGet(st, name, sorts[i])
+		e.heapSet(st, name, sorts[i], e.maybeName(mkStore(arr, r, constArray("(Array Int "+leaves[i].Sort+")", e.zeroLeaf(leaves[i]))), sorts[i]))
 		e.noteWrite(name, r)
+	}
+}
+
+// entryClosedPacked: closure of the entry heap for packed element arrays.
+func (e *Env) entryClosedPacked(name string, et types.Type) {
+	if e.next0 == "" || e.declared["closed:"+name] || !e.declared[name+"@0"] {
+		return
+	}
+	e.declared["closed:"+name] = true
+	_, _, sels, _ := e.packed(et)
+	arr := q(name + "@0")
+	elem := "(select (select " + arr + " |$r|) |$j|)"
+	for i, l := range e.leavesOf(et) {
+		if l.Sort != sInt {
+			continue
+		}
+		term := sx(sels[i], elem)
+		var fact string
+		if isRefType(l.Typ) || strings.HasSuffix(l.Path, "#arr") {
+			fact = "(< " + term + " " + e.next0 + ")"
+		} else if isIfaceType(l.Typ) {
+			e.declAtEntry()
+			fact = "(atentry " + term + ")"
+		} else {
+			continue
+		}
+		e.sess.Cmd("(assert (forall ((|$r| Int) (|$j| Int)) (! " + fact + " :pattern (" + term + "))))")
 	}
 }
 
